@@ -8,9 +8,10 @@ A `big` case is a batch of 257 - 300000 rows reproducible from a seed (one row p
 
 Correspondence (K): for every base / rotated / scaled tensor the real functions are called on three
 paths - scalar arguments, column (ndarray) arguments, the DataFrame accessor - and in further batch layouts
-and input forms, and every result is compared bit for bit (NaN = NaN, -0.0 = 0.0) with the compiled Lean
+and float64 input forms, and every result is compared bit for bit (NaN = NaN, -0.0 = 0.0) with the compiled Lean
 model, which receives the six components and the eigenvalue triple the real `principals` returned on the
-same path.  Of a big case ~60-180 sampled rows (ends, block boundaries, random) go through K.
+same path.  Of a big case ~60-180 sampled rows (ends, block boundaries, random) go through K.  Python-int / int64 /
+float32 input does not go through K: it is judged by the oracle with a tolerance (see RULE).
 
 Oracle: the property's own relations on the real code, with eigenvalues obtained independently
 (the constructing eigenvalues of the case, or numpy's general non-symmetric solver `eigvals`); on big cases
@@ -18,8 +19,10 @@ vectorised over ALL rows.  What the oracle does not judge (and why) is stated in
 rotation / scaling within SIGN_WINDOW of the tie set of the indicator, frames lacking a Voigt column, names of
 the returned pandas objects, magnitudes outside 1e-140 .. 1e140.
 
-Finding classes that can be open findings go through `Prop.known` (mises-int-overflow: assigned only when the
-value equals the harness's own int64 wrap-around evaluation of the formula)."""
+Finding classes that were open findings go through `Prop.known` (mises-int-overflow: assigned only when the
+value equals the harness's own int64 wrap-around evaluation of the formula).  Both C17 classes (mises-cancellation,
+mises-int-overflow) are fixed in /repo (a83078d, 176ec02) and no C17 class is open, so that branch is inert: a hit is
+reported as a violation."""
 import itertools
 import json
 import math
@@ -493,7 +496,8 @@ class C17(Prop):
         "PylifeVerif.C17.accessor_rowwise":
             "says only that the MODEL of the accessor is a row-wise map (List.map restated); that the pandas accessor is that "
             "map - the six Voigt columns looked up by name, rows kept in order, index kept - is glue: tested (correspondence "
-            "and oracle over column permutations, extra columns, 6 index kinds, 300 - 70000 row frames), not proved",
+            "and oracle over column permutations, extra columns, 6 index kinds, 300 - 70000 row frames, thorough tier 257 - 300000), "
+            "not proved",
     }
     RULE = ("case = (1-6 stress tensors of 19 kinds incl. uniaxial, pure shear, hydrostatic, near-hydrostatic, repeated "
             "eigenvalues, zero, zero trace, |w_min| = |w_max|, |w_min| ~ |w_max| (relative gap 1e-11 .. 1e-3), trace ~ 0, "
@@ -501,11 +505,15 @@ class C17(Prop):
             "one positive scale factor; index layout (6 kinds incl. duplicate labels); column layout of the frame = the six Voigt columns "
             "in canonical / permuted order with 0-3 other columns anywhere); every base / rotated / scaled tensor is evaluated on the scalar, "
             "column and accessor path and in further batch layouts and input forms (alone as a column of length 1, columns of length 2 and 3, "
-            "next to 1-4 all-zero rows, as a one-row frame df.iloc[[i]], (n,1) arrays, pandas Series arguments, python ints, int64 columns, "
-            "int64 / float32 frames) and all 9 function values are compared bit for bit "
-            "with the Lean model fed with the eigenvalues `principals` returned; plus per run large batches of 300 - 70000 "
-            "(thorough: - 300000) rows reproducible from a seed: column and accessor path on all rows (vectorised relations, "
-            "independent eigenvalues), ~60 sampled rows incl. block boundaries and the last rows through the scalar path and "
+            "next to 1-4 all-zero rows, as a one-row frame df.iloc[[i]], (n,1) arrays, pandas Series arguments) and all 9 function values "
+            "are compared bit for bit "
+            "with the Lean model fed with the eigenvalues `principals` returned; python-int arguments, int64 columns and int64 / "
+            "float32 frames do not reach the model: the oracle compares them with the float64 result of the same tensor (integer "
+            "input: bit for bit while max|s_ij| < 2^20, else within 1e-9 x magnitude; float32: within 2e-5 x magnitude, magnitudes "
+            "only for the signed variants and abs_max_principal); enumerated scope: all 729 tensors with components in {-1,0,1} in batches of 9 rows "
+            "with one (thorough: each) of the 6 exact orthogonal matrices; plus per run large batches of 300 - 70000 "
+            "(thorough: 257 - 300000) rows reproducible from a seed: column and accessor path on all rows (vectorised relations, "
+            "independent eigenvalues), ~60-180 sampled rows incl. block boundaries and the last rows through the scalar path and "
             "the model; non-trivial = at least one non-zero tensor; distinct by case")
     ASSUMPTIONS = [
         "numpy.linalg.eigvalsh is modelled by its contract (IsEigTriple: ascending roots of the characteristic polynomial, "
@@ -521,7 +529,7 @@ class C17(Prop):
         "neighbour of the exact rotation: theorems signTrace_determined_iff / signAbsMax_determined_iff (the sign is the same "
         "on all neighbours iff the indicator is non-zero), signTrace_stable / signAbsMax_stable (margin 3 delta resp. 2 delta) "
         "and signedTrace_jump_at_tie / signedAbsMax_jump_at_tie (an arbitrarily small hydrostatic pressure flips the sign at "
-        "unchanged Mises / Tresca) delimit it.  Observed on the unchanged code: signed_tresca_abs_max_principal(0,0,0,5,0,0) = "
+        "unchanged Mises / Tresca) delimit it.  Observed on the original and the current code: signed_tresca_abs_max_principal(0,0,0,5,0,0) = "
         "+10, but -10 in ~40 % of randomly rotated frames.  No evaluation order removes this (a tolerance-based tie rule only moves "
         "the jump), so it is not recorded as a defect.  The oracle therefore compares the sign of a signed variant / of "
         "abs_max_principal between a tensor and its rotated / scaled image only if |indicator| > 1e-12 x max|s_ij| (~4500 ulp); "
@@ -537,8 +545,11 @@ class C17(Prop):
         "single precision: compared with 2e-5 x magnitude, for 1e-12 <= max|s_ij| <= 1e12 only",
         "a frame that lacks one of the six Voigt columns is not a stress tensor: whether the accessor refuses it is not part of "
         "the property (counted in distribution.reduced_frame, no verdict); names of returned Series / columns likewise (distribution.notes)",
-        "model `mises` is the repaired sum-of-squares formula (tools/fixes/C17-mises-sum-of-squares.diff); over the reals "
-        "it equals the expanded formula of the unrepaired code (theorem misesExpanded_eq_mises)",
+        "model `mises` is the repaired sum-of-squares formula (/repo commit a83078d); over the reals it equals the expanded "
+        "formula of the unrepaired code (theorem misesExpanded_eq_mises) and the definition translated from the current "
+        "source (Generated.mises, theorem Bridge.mises_eq).  The conversion of the components to float64 that commit 176ec02 "
+        "put in front of the formula is not modelled (identity on float64 input; integer input is judged by the oracle only), "
+        "and Generated.mises is never run at Float: the Float side of the correspondence is the hand model",
         "pandas accessor registration / DataFrame column access are glue, checked by K and the oracle only",
     ]
 
